@@ -16,6 +16,7 @@ require (
 	github.com/k0kubun/pp/v3 v3.3.0
 	github.com/rivo/uniseg v0.4.7
 	github.com/spf13/pflag v1.0.7
+	golang.org/x/tools v0.43.0
 )
 
 require (
@@ -42,5 +43,4 @@ require (
 	golang.org/x/sync v0.20.0 // indirect
 	golang.org/x/sys v0.42.0 // indirect
 	golang.org/x/text v0.8.0 // indirect
-	golang.org/x/tools v0.43.0 // indirect
 )
